@@ -44,6 +44,8 @@ def py_decode(p, is_bytes):
             h = p[i + 2:i + 2 + k]
             if len(h) < k or any(x not in hexd for x in h):
                 raise SyntaxError(d)
+            if int(h, 16) > 0x10FFFF:
+                raise SyntaxError('no such character')      # undecodable escape (C10: SyntaxError or a lookup error)
             out.append(chr(int(h, 16)))
             i += 2 + k
         elif d == 'N' and not is_bytes:
